@@ -243,7 +243,7 @@ func TestC19(t *testing.T) {
 		nc := scale(300, 10000)
 		for i := 0; i < nc; i++ {
 			ctx, _ := baseCtx.CacheContext()
-			bips := uint32(r.Intn(10001))
+			bips := uint32(1 + r.Intn(10000)) // 0 means "leave the bips as they are" to UpdateFees
 			if r.Intn(3) == 0 {
 				bips = []uint32{1, 50, 9999, 10000, 2, 3}[r.Intn(6)]
 			}
